@@ -105,6 +105,11 @@ def processInternalEvent (fuel : Nat) (event : Event) : M (Event × List String)
       let src ← argStr args "source_flow_instance_uid"
       let srcX ← getInstX src
       let isActivatedChild := flowId = srcX.flowId
+      let srcInst ← getInst src
+      let isRestart := isActivatedChild && activatedArg
+      if (srcInst.status.done && !isRestart) || (isRestart && srcX.activated = 0) then
+        -- the flow that requested the start has ended in the meantime (or, for a restart, was deactivated): dropped
+        return (event, ["all_loops"])
       match started with
       | some s =>
         if !isActivatedChild then
